@@ -326,6 +326,7 @@ static inline uint64_t gen_tt(Rng &r)
 {
     switch(r.below(5)) { case 0: return 0; case 1: return 1; case 2: return ~0ull; default: return r.next(); }
 }
+static const int MAX_BUNDLE_ELEMS = 12;
 static inline Elem gen_elem(Rng &r, int maxdepth, bool force_bundle = false)
 {
     Elem e;
@@ -334,6 +335,7 @@ static inline Elem gen_elem(Rng &r, int maxdepth, bool force_bundle = false)
         e.tt = gen_tt(r);
         int n = (int)r.range(0, maxdepth >= 3 ? 3 : 8);
         if(r.chance(0.15)) n = 0;
+        else if(force_bundle && r.chance(0.08)) n = (int)r.range(9, MAX_BUNDLE_ELEMS);   // beyond what the property quantifies (0..8), still a bundle
         for(int i = 0; i < n; ++i) e.kids.push_back(gen_elem(r, maxdepth - 1));
     } else {
         e.msg = gen_msg(r, 6, true);
@@ -357,7 +359,11 @@ static inline size_t call_bundle(char *buf, size_t len, uint64_t tt, const std::
         case 5: return rtosc_bundle(buf, len, tt, 5, e[0], e[1], e[2], e[3], e[4]);
         case 6: return rtosc_bundle(buf, len, tt, 6, e[0], e[1], e[2], e[3], e[4], e[5]);
         case 7: return rtosc_bundle(buf, len, tt, 7, e[0], e[1], e[2], e[3], e[4], e[5], e[6]);
-        default: return rtosc_bundle(buf, len, tt, 8, e[0], e[1], e[2], e[3], e[4], e[5], e[6], e[7]);
+        case 8: return rtosc_bundle(buf, len, tt, 8, e[0], e[1], e[2], e[3], e[4], e[5], e[6], e[7]);
+        case 9: return rtosc_bundle(buf, len, tt, 9, e[0], e[1], e[2], e[3], e[4], e[5], e[6], e[7], e[8]);
+        case 10: return rtosc_bundle(buf, len, tt, 10, e[0], e[1], e[2], e[3], e[4], e[5], e[6], e[7], e[8], e[9]);
+        case 11: return rtosc_bundle(buf, len, tt, 11, e[0], e[1], e[2], e[3], e[4], e[5], e[6], e[7], e[8], e[9], e[10]);
+        default: return rtosc_bundle(buf, len, tt, 12, e[0], e[1], e[2], e[3], e[4], e[5], e[6], e[7], e[8], e[9], e[10], e[11]);
     }
 }
 
